@@ -5,7 +5,9 @@
 // Compile-time shape: C15_AXIS (0 rows, 1 cols), C15_CONV (0 correlate, 1 convolve), C15_KFIX (0: kernel_1d, N: kernel_1d_fixed<.,N>),
 //                     C15_SRC_PIX / C15_ACC_PIX (source pixel type / accumulator = destination pixel type), C15_KER_T (tap type).
 // Run-time-constant shape (vp_param): 0,1 = width,height; 2 = kernel size; 3 = centre; 4 = boundary option (enum value);
-//                     5,6 = output pixel under test (x,y); 5 = -1: every output pixel (concrete loop).
+//                     5,6 = output pixel under test (x,y); 5 = -1: every output pixel (concrete loop); 7 = bit mask of the symbolic taps
+//                     (the others are 0; -1 = all; used by the float-accumulator queries: float sums of more than two non-zero
+//                     terms against the exact integer sum had no verdict in 300 s).
 // Symbolic: every source pixel (and, for extend_padded, every declared padding pixel), every kernel tap in [-4,4], the sentinel
 // the destination is pre-filled with.
 // Source and destination are exact-size heap objects: a read outside the source (+ declared padding) or a write outside the
@@ -73,7 +75,8 @@ struct setup {
         s.fill();
         d.alloc(w, h);
         for (int k = 0; k < KMAX; ++k) { taps[k] = 0; ktaps[k] = 0; }
-        for (int k = 0; k < K; ++k) { int t = vp_range(-4, 4); taps[k] = t; ktaps[k] = (ker_t)t; }
+        int symmask = vp_param(7);               // bit k set: tap k symbolic, clear: tap k is 0 (-1: every tap symbolic)
+        for (int k = 0; k < K; ++k) { if (!((symmask >> k) & 1)) continue; int t = vp_range(-4, 4); taps[k] = t; ktaps[k] = (ker_t)t; }
         int sv = vp_range(-1000000, 1000000); sent = sv;
         prefill(d);
     }
